@@ -451,6 +451,22 @@ class Interp:
             raise Unsupported("list store with symbolic index")
         if hasattr(obj, "setitem"):
             return obj.setitem(self, self.eval(sl, env), v, lineno)
+        if isinstance(obj, SArr2):
+            idx = self.eval(sl, env)
+            full = slice(None, None, None)
+            if isinstance(idx, tuple) and len(idx) == 2 and idx[0] == full and isinstance(idx[1], (int, z3.ArithRef)) and obj.buf is None:
+                # a[:, c] = v on a freshly allocated 2-D array (no other alias of a functional 2-D value exists)
+                col = M.wrapneg(idx[1], obj.cols)
+                self.ctx.check("%s:index.inbounds@L%s" % (self.ctx.fname, lineno), in_range(col, obj.cols), "safety", lineno)
+                old = obj._at2
+                if isinstance(v, SArr):
+                    M.same_len(obj.rows, v.length, "setitem.column", lineno)
+                    fv = v.snapshot()
+                else:
+                    fv = lambda i: v
+                obj._at2 = lambda i, j, old=old, col=col, fv=fv: Ite(I(j) == I(col), fv(i), old(i, j))
+                return
+            raise Unsupported("2-D store %r" % (idx,))
         if isinstance(obj, SArr):
             if isinstance(sl, ast.Slice):
                 lo = None if sl.lower is None else self.eval(sl.lower, env)
